@@ -17,7 +17,7 @@ Limits == IF Tier = "quick"
 
 LoSet == IF Tier = "quick"
            THEN {-300, 0, 1, 127, 128, 254, 255, 1000}
-           ELSE (0..255) \cup {-300, -1, 256, 1000}
+           ELSE {-300, -1, 256, 1000} \cup {v \in 0..255 : v % 8 = 0 \/ v \in {1, 2, 3, 127, 129, 253, 254, 255}}
 
 PokeSet == IF Tier = "quick" THEN {<<2, 0>>, <<1, 77>>, <<0, 255>>}
            ELSE {<<2, 0>>, <<1, 77>>, <<0, 255>>, <<3, 128>>}
